@@ -367,7 +367,11 @@ func (c *wireSSConn) SendChunk(chunk pb.Chunk) error {
 		atomic.AddInt64(&n.wire.ChunksLost, 1)
 		return nil
 	}
-	if len(chunk.Data) > 0 && n.roll(f.ChunkCorruptPm, 1000) {
+	// chunks of external files are left alone: dragonboat keeps no checksum for files the user
+	// adds to a snapshot (the stream validator skips chunks that carry file info), their
+	// protection on the wire is the frame checksum, which the proxies attack (E4 classifies a
+	// changed payload byte of an external file chunk as not judged for the same reason)
+	if len(chunk.Data) > 0 && !chunk.HasFileInfo && n.roll(f.ChunkCorruptPm, 1000) {
 		// one byte of the payload changes before the frame checksum is computed, so only the
 		// snapshot stream validator / chunk tracker of the receiver can notice
 		// not inside the 1 KB snapshot header at the start of chunk 0: its checksum slot is zero
